@@ -5,11 +5,20 @@ import json
 from falib import Interner, vkey
 
 
-def build_cfg(spec):
+def build_cfg(spec, pool=None):
+    """pool: a dict shared between several calls so that the grammars are built from the same Variable / Terminal objects"""
     from pyformlang.cfg import CFG, Variable, Terminal, Production
-    prods = [Production(Variable(h), [Variable(v) if k == "V" else Terminal(v) for k, v in body]) for h, body in spec["prods"]]
-    start = Variable(spec["start"]) if spec.get("start") is not None else None
-    return CFG({Variable(v) for v in spec["vars"]}, {Terminal(t) for t in spec["terms"]}, start,
+    if pool is None:
+        V_, T_ = Variable, Terminal
+    else:
+        def V_(v):
+            return pool.setdefault(("V", vkey(v)), Variable(v))
+
+        def T_(v):
+            return pool.setdefault(("T", vkey(v)), Terminal(v))
+    prods = [Production(V_(h), [V_(v) if k == "V" else T_(v) for k, v in body]) for h, body in spec["prods"]]
+    start = V_(spec["start"]) if spec.get("start") is not None else None
+    return CFG({V_(v) for v in spec["vars"]}, {T_(t) for t in spec["terms"]}, start,
                set(prods) if not spec.get("prods_as_list") else prods)
 
 
@@ -111,6 +120,19 @@ def rand_cfg(rng, profile=None, names="plain", max_vars=4, max_terms=3, max_prod
     start = vs[0]
     prods = []
     n = rng.randint(1, max_prods)
+    if profile == "doubling":
+        # word lengths with a gap that doubles: B derives words of length 2 only, S -> B | B B (no word of length 3, words of length 4)
+        vs = (vs + ["B", "C"])[:3] if len(vs) < 3 else vs[:3]
+        S_, B_, C_ = vs[0], vs[1], vs[2]
+        a, b = ts[0], ts[-1]
+        prods = [[B_, [["T", a], ["T", b]]], [S_, [["V", B_], ["V", B_]]]]
+        if rng.random() < 0.6:
+            prods.append([S_, [["V", B_]]])
+        if rng.random() < 0.4:
+            prods = [[B_, [["V", C_], ["V", C_]]], [C_, [["T", a]]]] + prods[1:]
+        if rng.random() < 0.3:
+            prods.append([B_, [["T", b], ["T", b]]])
+        return normalise({"vars": vs, "terms": ts, "start": start, "prods": prods, "profile": profile, "names": names})
 
     def rbody(maxlen, pv=0.5):
         l = rng.randint(0, maxlen)
